@@ -96,6 +96,8 @@ fn build_server(obs: &Arc<Obs>, reg: &PeerRegistry) -> WebSocketServer {
             oc.connects.fetch_add(1, Ordering::SeqCst);
             oc.last_peer.store(peer.peer_id().0 + 1, Ordering::SeqCst);
             reg2.alias(peer.peer_id(), format!("alias-{}", peer.peer_id().0));
+            // a key every connection claims (a session token): it belongs to the most recent connection
+            reg2.alias(peer.peer_id(), "session");
             let _ = peer.send_notify("/hello", NotifyBody::Json(b"{\"hello\":1}".to_vec()));
             if oc.connect_gate.load(Ordering::SeqCst) { oc.wait_gate(Duration::from_secs(5)); }
         })
@@ -319,6 +321,60 @@ pub fn run(a: &Args) -> i32 {
             "off_started": ob.off_started.load(Ordering::SeqCst), "off_saw_cancel": ob.off_saw_cancel.load(Ordering::SeqCst), "stubborn": cause == "drain_abort"}));
         server_task.abort();
         drop(tx_hold);
+    }
+    // ---- a client reconnects with the same session key while its old connection is still being torn down:
+    // connection A's reader is parked in an inline handler, A's socket is lost and its sink closes, B connects and
+    // takes the key over, then A's disconnect hooks run.  B is still connected: the key must still resolve to B.
+    for _rep in 0..2 {
+        count += 1;
+        let reg = PeerRegistry::new();
+        let ob = Arc::new(Obs::default());
+        let server = build_server(&ob, &reg);
+        let listener = rt.block_on(WebSocketServer::listen("127.0.0.1:0")).unwrap();
+        let addr = listener.local_addr().unwrap();
+        let server_task = rt.spawn(async move { let _ = server.serve_listener(listener, "/ws").await; });
+        let (reg2, ob2) = (reg.clone(), ob.clone());
+        let (resolves_to_b, hello_first, reached) = rt.block_on(async move {
+            let mut frames = vec![];
+            let sa = tokio::net::TcpStream::connect(addr).await.unwrap();
+            let (mut a, _) = tokio_tungstenite::client_async(format!("ws://{addr}/ws"), sa).await.unwrap();
+            read_some(&mut a, &mut frames, 1, 500).await;
+            let pid_a = ob2.last_peer.load(Ordering::SeqCst) - 1;
+            let _ = a.send(WsMsg::Binary(req(2, "/inline_park", json!(2)).into())).await;
+            tokio::time::sleep(Duration::from_millis(40)).await;
+            drop(a);
+            // push at A until its writer has hit the dead socket
+            let ha = reg2.get(repe::PeerId(pid_a));
+            let t0 = Instant::now();
+            let mut closed = false;
+            while let Some(h) = &ha { let _ = h.send_notify("/poke", NotifyBody::Json(b"{}".to_vec())); if !h.is_connected() { closed = true; break; } if t0.elapsed() > Duration::from_secs(3) { break; } tokio::time::sleep(Duration::from_millis(5)).await; }
+            let still_registered = reg2.get(repe::PeerId(pid_a)).is_some();
+            let sb = tokio::net::TcpStream::connect(addr).await.unwrap();
+            let (mut b, _) = tokio_tungstenite::client_async(format!("ws://{addr}/ws"), sb).await.unwrap();
+            let mut fb = vec![];
+            read_some(&mut b, &mut fb, 1, 500).await;
+            let pid_b = ob2.last_peer.load(Ordering::SeqCst) - 1;
+            // let A's handler return: A's reader sees the dead socket, A's disconnect hooks run
+            ob2.open();
+            let t1 = Instant::now();
+            while ob2.disconnects.load(Ordering::SeqCst) < 1 && t1.elapsed() < Duration::from_secs(5) { tokio::time::sleep(Duration::from_millis(2)).await; }
+            tokio::time::sleep(Duration::from_millis(20)).await;
+            let ok = reg2.get_by("session").map(|h| h.peer_id().0) == Some(pid_b) && reg2.get(repe::PeerId(pid_b)).is_some() && pid_a != pid_b;
+            let _ = b.close(None).await;
+            drop(b);
+            (ok, fb.first().map(|f| f.1 == "/hello").unwrap_or(false), closed && still_registered)
+        });
+        let t2 = Instant::now();
+        while ob.disconnects.load(Ordering::SeqCst) < 2 && t2.elapsed() < Duration::from_secs(5) { std::thread::sleep(Duration::from_millis(2)); }
+        std::thread::sleep(Duration::from_millis(30));
+        out.push(&json!({"ev": "life", "entry": "listener", "cause": "socket_loss", "phase": "reconnect_same_key", "conns": 2, "handshake_ok": true,
+            "connects": ob.connects.load(Ordering::SeqCst), "disconnects": ob.disconnects.load(Ordering::SeqCst), "disconnect_before_connect": ob.disconnect_before_connect.load(Ordering::SeqCst),
+            // if the precondition (A's sink closed while A still registered) was not reached, the scenario says nothing
+            "present_during": resolves_to_b || !reached, "present_after": !reg.is_empty(),
+            "alias_after": reg.get_by("session").is_some() || (0..64u64).any(|p| !reg.aliases_for(repe::PeerId(p)).is_empty()),
+            "late_alias": 0, "precondition_reached": reached,
+            "hello_first": hello_first, "off_started": false, "off_saw_cancel": false, "stubborn": false}));
+        server_task.abort();
     }
     out.finish();
     util::write_json(&a.str("summary", "/dev/null"), &json!({"scenarios": count}));
